@@ -94,6 +94,22 @@ def run(ck):
             dom = cfg.dominators(f0)
             okorder = okorder and all(cfg.ev_dominates(dom, st, e) for k in pre + ["crlf"] for e in by.get(k, [])) and cfg.ev_dominates(dom, blank, aw)
         ck.ob("C05-R1", "%s/component-order" % name, okorder, f0.loc, f0, "status < {%s} < blank line < body < asyncWrite" % ", ".join(k for k in pre if k in by))
+        # no path hands the message to the transport without having written its Content-Length (whatever the status code, headers or
+        # body size): the body that follows the blank line would be unframed
+        unframed = []
+
+        def fstep(st, ev):
+            c_ = comp_of(ev)
+            if c_ == "content-length":
+                return 1
+            if c_ == "asyncWrite" and st == 0:
+                unframed.append(ev)
+                return None
+            return st
+        cfg.run_automaton(f0, 0, lib.inlined_step(prog, fstep, lambda g_: w_expand(g_) and g_.id != f0.id))
+        ck.ob("C05-R1", "%s/content-length-on-every-sending-path" % name, not unframed, unframed[0].loc if unframed else f0.loc, f0,
+              "asyncWrite is reached only after writeHeader<ContentLength>" if not unframed else
+              "asyncWrite at line %s can be reached on a path that wrote no Content-Length: the receiver cannot tell where the body ends" % unframed[0].get("l"))
         # failure discipline: each write W is followed by the `!os` test
         nw = 0
         for f in reg:
